@@ -293,14 +293,44 @@ def load_findings():
     return json.load(open(p))
 
 
-def finding_matches(f, pid, case):
-    """A known finding matches by a narrow predicate on the input, never by
-    property id alone."""
+_NEGZERO = re.compile(r'-(0+)(?![0-9])')
+
+
+def _negzero_variants(b):
+    """the names a negative-zero numeral is rebuilt as: the dash replaced by one more zero"""
+    return set(b[:m.start()] + '0' + m.group(1) + b[m.end():] for m in _NEGZERO.finditer(b))
+
+
+def _quoted(t):
+    return [x.split(':', 1)[1] if re.match(r'^(F|D|LF|LD|LS|LX):', x) else x for x in re.findall(r"'([^']*)'", t)]
+
+
+def negzero_failure(text, msgs):
+    """every path a failure message quotes is either a name holding a negative-zero numeral whose
+    rebuilt form (dash -> zero) is quoted too (in the message or the input), or such a rebuilt form"""
+    base = lambda p_: p_.rstrip('/').rsplit('/', 1)[-1]
+    inputs = set(base(x) for x in _quoted(text))
+    for m_ in msgs:
+        names = set(base(x) for x in _quoted(m_))
+        if not names:
+            return False
+        pool = names | inputs
+        for b in names:
+            if not (_negzero_variants(b) & pool or any(b in _negzero_variants(p_) for p_ in pool)):
+                return False
+    return True
+
+
+def finding_matches(f, pid, case, msgs=None):
+    """A known finding matches by a narrow predicate on the input (and, where the finding says so,
+    on what exactly failed), never by property id alone."""
     if f.get('status') != 'known' or pid not in f.get('properties', []):
         return False
     m = f.get('match', {})
     kind = m.get('kind')
     text = case.get('text', '')
+    if m.get('failure') == 'negzero' and msgs is not None and not negzero_failure(text, msgs):
+        return False
     if kind == 'input_regex':
         return re.search(m['pattern'], text) is not None
     if kind == 'exact_input':
